@@ -556,11 +556,17 @@ func embedShapes(prefix, family string, depth int, prePost [][]int, ptrLevel int
 		idx++
 		sh := &shape{name: fmt.Sprintf("%s%d", prefix, idx), family: family}
 		// innermost struct
-		inner := &structT{name: fmt.Sprintf("%s_L%d", sh.name, depth)}
+		// every third shape embeds struct types whose names are unexported (the embedded field is then unexported too,
+		// its promoted members are fields like any other)
+		sub := sh.name
+		if idx%3 == 2 {
+			sub = strings.ToLower(sub[:1]) + sub[1:]
+		}
+		inner := &structT{name: fmt.Sprintf("%s_L%d", sub, depth)}
 		inner.fields = append(inner.fields, mkLeaf(sh, sh.name, "x", 4, idx, idx), mkLeaf(sh, sh.name, "y", 1, idx+1, idx+1))
 		cur := inner
 		for lvl := depth - 1; lvl >= 0; lvl-- {
-			name := fmt.Sprintf("%s_L%d", sh.name, lvl)
+			name := fmt.Sprintf("%s_L%d", sub, lvl)
 			if lvl == 0 {
 				name = sh.name
 			}
